@@ -24,7 +24,15 @@ def compare_case(ctx, m, sess, lmq, model_exe, queries, types, stats, check_mode
                                  {"arpa": m.arpa_bytes().decode("latin-1"), "model": mres["loaded"]}, False))
     replay_base = {"arpa": m.arpa_bytes().decode("latin-1"), "vocab": m.vocab_bytes().decode("latin-1")}
     for typ in types:
-        r = sess.run_impl(lmq, typ, queries)
+        qopts = []
+        pb = bb = 8
+        if typ in ("qtrie", "qatrie") and ctx.rng.chance(1, 2):
+            # quantiser widths other than the default 8/8, and different from each other (the tables of the orders follow each other
+            # in memory: a mis-sized one overlaps its neighbour only when the two widths differ -- third-round seeded change C01-7)
+            pb = ctx.rng.range(6, 12)
+            bb = ctx.rng.choice([b for b in range(6, 13) if b != pb])
+            qopts = ["probbits=%d" % pb, "backoffbits=%d" % bb]
+        r = sess.run_impl(lmq, typ, queries, opts=qopts)
         stats["impl_runs"] = stats.get("impl_runs", 0) + 1
         if not r["head"].startswith("loaded"):
             kind = r["head"]
@@ -44,6 +52,12 @@ def compare_case(ctx, m, sess, lmq, model_exe, queries, types, stats, check_mode
             problems.append(("crash:" + typ, "driver died while querying (rc=%d)" % r["rc"], dict(replay_base, type=typ, err=r["err"]), True))
             continue
         quant = typ in ("qtrie", "qatrie")
+        # equal-population bins keep every value exactly when an order has no more entries than bins (one value per bin; finding F5
+        # is about the converse): then the quantised trie owes the exact ARPA probabilities too.  Blank entries the loader inserts
+        # are quantised as well, hence the margin.
+        quant_exact = quant and closed and all(2 * len(m.file_order.get(n, [])) + 2 < min(1 << pb, (1 << bb) - 2) for n in range(2, m.order + 1))
+        if quant_exact:
+            stats["quantised_exact_models"] = stats.get("quantised_exact_models", 0) + 1
         for qi, (q, line) in enumerate(zip(queries, r["lines"])):
             bos, ws = q
             items = lc.parse_line(line, True)
@@ -56,7 +70,7 @@ def compare_case(ctx, m, sess, lmq, model_exe, queries, types, stats, check_mode
                 # ---- specification oracle (property text) on the implementation
                 sp, sl = m.bo_score(hist, w, unk)
                 rq = dict(replay_base, type=typ, bos=bos, words=ws, position=i)
-                if not quant:
+                if not quant or quant_exact:
                     if it["fs"][0] != sp:
                         problems.append(("spec:prob:" + typ, "FullScore prob %s/64 != ARPA recursion %s/64" % (it["fs"][0], sp), rq, True))
                     if it["ff"][0] != sp:
